@@ -110,7 +110,7 @@ pub fn c04_frame<F: Fam>(ctx: &Ctx, g: &G, b: &[u8]) {
 }
 
 pub fn c04(ctx: &Ctx) {
-    ctx.set_rule("complete frames with minimally encoded integers, strict poll decoder vs the reference decoder: all frames with remaining length <= 2 (thorough 3) for all 256 control bytes, all bodies over B16 up to 4 (6) bytes for the legal control bytes; the reference encoding of U_val and U_field (every value slot of every packet type over its atom catalogue) in every legal spelling (short/long forms, permuted properties); the malformation catalogue over U_small and the full packets of U_field with one fault, and with one fault plus one byte substitution over B16; N1 (thorough: N2) re-framed. Accept <=> the reference accepts; on accept the packet equals the reference value mapped by variant name and the reported size is exact; pinned leniencies (DESIGN 4.1) tolerated either way. Non-trivial = frames the reference accepts or rejects past the header");
+    ctx.set_rule("complete frames with minimally encoded integers, strict poll decoder vs the reference decoder: all frames with remaining length <= 2 (thorough 3) for all 256 control bytes, all bodies over B16 up to 4 (6) bytes for the legal control bytes; the reference encoding of U_val and U_field (every value slot of every packet type over its atom catalogue) in every legal spelling (short/long forms, permuted properties); the malformation catalogue over U_small, the full packets of U_field and the relation hosts with one fault, and with one fault plus one byte substitution over B16; N1 (thorough: N2) re-framed. Accept <=> the reference accepts; on accept the packet equals the reference value mapped by variant name and the reported size is exact; pinned leniencies (DESIGN 4.1) tolerated either way. Non-trivial = frames the reference accepts or rejects past the header");
     fn fam<F: Fam>(ctx: &Ctx) {
         let f = F::FAMILY;
         let g = G { accept: AtomicU64::new(0), lenient: AtomicU64::new(0), reject: AtomicU64::new(0), out_of_domain: AtomicU64::new(0), not_frame: AtomicU64::new(0) };
@@ -143,7 +143,7 @@ pub fn c04(ctx: &Ctx) {
         // single faults, and single fault + one substitution
         let mut stats = CatalogueStats::default();
         let mut mal: Vec<Vec<u8>> = Vec::new();
-        for a in u_tiny(f).iter().chain(u_small(f).iter()).chain(mqtt_ref::genfield::bases(f).iter()) {
+        for a in u_tiny(f).iter().chain(u_small(f).iter()).chain(mqtt_ref::genfield::bases(f).iter()).chain(mqtt_ref::genfield::relation_hosts(f).iter()) {
             for m in mutate::catalogue(f, a, &mut stats, true) {
                 mal.push(m.bytes);
             }
@@ -265,11 +265,11 @@ pub fn c20_one<F: Fam>(ctx: &Ctx, m: &mutate::Mal) {
 }
 
 pub fn c20(ctx: &Ctx) {
-    ctx.set_rule("every value of U_small, U_tiny and the full packets of U_field (every optional field and property present) x every site x every row of the single-fault catalogue (DESIGN.md 4.2); a candidate is kept only if the reference decoder reports exactly the intended violation; the three front-ends must return the documented variant with its payload (inner length past the frame: InvalidRemainingLength for poll, incomplete for blocking/async; trailing bytes: poll only). Non-trivial = catalogue members; distinct = distinct frames");
+    ctx.set_rule("every value of U_small, U_tiny and the full packets of U_field (every optional field and property present) and the relation hosts (repeated user-property names with values of different lengths, equal and differently long neighbouring filters, repeated codes, equal content in several fields) x every site x every row of the single-fault catalogue (DESIGN.md 4.2); a candidate is kept only if the reference decoder reports exactly the intended violation; the three front-ends must return the documented variant with its payload (inner length past the frame: InvalidRemainingLength for poll, incomplete for blocking/async; trailing bytes: poll only). Non-trivial = catalogue members; distinct = distinct frames");
     fn fam<F: Fam>(ctx: &Ctx) {
         let f = F::FAMILY;
         // U_tiny, U_small, and the full packets of U_field (every optional field and property present: every site exists)
-        let hosts: Vec<_> = u_tiny(f).into_iter().chain(u_small(f)).chain(mqtt_ref::genfield::bases(f)).collect();
+        let hosts: Vec<_> = u_tiny(f).into_iter().chain(u_small(f)).chain(mqtt_ref::genfield::bases(f)).chain(mqtt_ref::genfield::relation_hosts(f)).collect();
         let thin = !ctx.thorough();
         let parts: Vec<(Vec<mutate::Mal>, CatalogueStats)> = hosts
             .par_iter()
